@@ -161,7 +161,7 @@ func run(s *kernel.Sim, c *scen.Case) {
 	opts.RemoteVersion = kernel.Pick(t, "version", "", "25.4.0", "$CondorVersion: 25.4.0 2025-10-31 BuildID: 847437 PackageID: 25.4.0-0.847437 GitSHA: a6507f91 RC $")
 	var lifetime time.Duration
 	if t.Choose("life", 2) == 1 {
-		lifetime = time.Duration(kernel.Pick(t, "lifetime", 30, 600, 86400)) * time.Second
+		lifetime = time.Duration(kernel.Pick(t, "lifetime", 30, 600, 86400, 40*365*86400, 100*365*86400)) * time.Second // (the last two end after 2038-01-19 on the simulated calendar, which starts in 2000)
 	}
 	opts.Lifetime = lifetime
 	nvc := t.Choose("nvc", 4)
@@ -183,6 +183,18 @@ func run(s *kernel.Sim, c *scen.Case) {
 	}
 	mintedAt := time.Now()
 	claim := minted.ClaimID()
+	if t.Chance("garbled-import-first", 1, 4) {
+		// the importer first received the claim id garbled in its last (secret) character and imported
+		// that; the import of the genuine claim id that follows is the one that must count
+		g := []byte(claim)
+		if g[len(g)-1] == '0' {
+			g[len(g)-1] = '1'
+		} else {
+			g[len(g)-1] = '0'
+		}
+		_, _ = security.ImportClaimSession(B.cache, string(g), security.ClaimSessionOptions{PeerAddr: "<" + A.addr + ">", Tag: opts.Tag})
+		s.Probe("genuine-import-after-garbled-one")
+	}
 	sid, err := security.ImportClaimSession(B.cache, claim, security.ClaimSessionOptions{PeerAddr: "<" + A.addr + ">", Tag: opts.Tag})
 	if err != nil {
 		s.Violate("import-failed", sigOpts, fmt.Sprintf("%s: import of a freshly minted claim id failed: %v", desc, err))
@@ -391,7 +403,9 @@ func run(s *kernel.Sim, c *scen.Case) {
 		s.Probe("wrong-secret-import-rejected")
 	}
 	// lock-step expiry
-	if lifetime > 0 {
+	if lifetime > 24*time.Hour {
+		s.Probe("lifetime-beyond-the-simulated-horizon") // expiry compared above; not lived through
+	} else if lifetime > 0 {
 		elapsed := time.Since(mintedAt)
 		if lifetime-elapsed > 12*time.Second {
 			w.sleep(lifetime - elapsed - 10*time.Second)
